@@ -43,10 +43,10 @@ import (
 func init() {
 	kit.Register(&kit.Spec{
 		ID:      "C13",
-		Rule:    "store level: random push/pop walks (depth 1..5, always unwound, LIFO) of synthetic blocks over a funded base; each block mixes transfers (incl. zero-value outputs, X addresses), WithdrawFromSideChain V0/V1/V2, ReturnSideChainDepositCoin, CRCProposal/Review/Tracking with draft data (review/tracking texts drawn from a small pool, so equal texts recur), NFTDestroyFromSideChain, Record, TransferCrossChainAsset; popped side-chain hashes are re-used by later blocks. node level: rounds of branch A (k blocks) then heavier branch B (k+1 blocks) of signed transfers on a live node, B then unwound/redone at store level. distinct = distinct block content (tx hashes) per walk position; non-trivial = the block changed at least one index besides the block/tx index (observed by query difference after connect)",
+		Rule:    "store level: random push/pop walks (depth 1..5, always unwound, LIFO) of synthetic blocks over a funded base; each block mixes transfers (incl. zero-value outputs, X addresses), WithdrawFromSideChain V0/V1/V2, ReturnSideChainDepositCoin, CRCProposal/Review/Tracking with draft data (review/tracking texts drawn from a small pool, so equal texts recur), NFTDestroyFromSideChain, Record, TransferCrossChainAsset; dedicated shapes: one transaction / several transactions of a block spending different outputs of ONE earlier transaction, ReturnSideChainDepositCoin output lists R, RR, CR, RCR, RC, CRR, RRC, CRCR (R return output with its own deposit hash, C plain change output); popped side-chain and deposit hashes are re-used by later blocks. node level (after the store level has unwound everything): rounds of branch A (k blocks, each with a two-input spend of one earlier transaction) which is first disconnected/reconnected through the store and compared with the fork point, then the heavier branch B (k+1 blocks) of signed transfers; a refused branch B is adjudicated by a twin process that never saw A; B is unwound/redone at store level; finally a twin syncs the active chain linearly and its dump is compared. distinct = distinct block content (tx hashes) per walk position; non-trivial = the block changed at least one index besides the block/tx index (observed by query difference after connect)",
 		Shards:  func(tier string) int { return 8 },
 		Run:     runC13,
-		Require: []string{"S_pushes", "S_pops", "S_dump_compares", "S_query_compares", "S_pops_clean", "S_tx:transfer", "S_tx:withdrawV0", "S_tx:withdrawV1", "S_tx:withdrawV2", "S_tx:returnDeposit", "S_tx:proposal", "S_tx:review", "S_tx:tracking", "S_tx:nftDestroy", "S_effect:tx3", "S_effect:draft", "S_effect:retdeposit", "S_effect:utxo", "S_effect:unspent", "S_reincluded_after_pop", "S_gate_accept_after_pop", "N_reorgs", "N_blocks_disconnected_by_node", "N_forkpoint_dump_compares", "N_redo_dump_compares", "N_model_query_compares"},
+		Require: []string{"S_pushes", "S_pops", "S_dump_compares", "S_query_compares", "S_pops_clean", "S_tx:transfer", "S_tx:withdrawV0", "S_tx:withdrawV1", "S_tx:withdrawV2", "S_tx:returnDeposit", "S_tx:proposal", "S_tx:review", "S_tx:tracking", "S_tx:nftDestroy", "S_effect:tx3", "S_effect:draft", "S_effect:retdeposit", "S_effect:utxo", "S_effect:unspent", "S_reincluded_after_pop", "S_gate_accept_after_pop", "disconnected_blocks_spending_two_outputs_of_one_tx", "disconnected_blocks_one_tx_spending_two_outputs_of_a_tx", "disconnected_blocks_two_txs_spending_outputs_of_one_tx", "disconnected_return_deposit_with_change_first", "disconnected_return_deposit_with_change_between_returns", "N_disconnected_blocks_spending_two_outputs_of_one_tx", "N_branch_undo_dump_compares", "N_twin_linear_sync_compares", "N_reorgs", "N_blocks_disconnected_by_node", "N_forkpoint_dump_compares", "N_redo_dump_compares", "N_model_query_compares"},
 		Assumptions: []string{
 			"ffldb metadata is read through database.Tx bucket iteration (ForEach/ForEachBucket) inside one View transaction",
 			"byte equality is demanded for every metadata bucket except: block storage (ffldb block index / write cursor, block-node bucket) which is append-only by design, the best-state row (hash and height compared, work sum reported), order inside an unspent/UTXO list and empty lists/empty buckets (set semantics; residue of this kind is counted, not flagged)",
@@ -360,6 +360,12 @@ type sFrame struct {
 	drafts  map[common.Uint256]bool // draft hashes referenced -> present before connect
 	tx3Was  map[common.Uint256]bool
 	label   string
+	// shapes the block exercises when it is disconnected
+	twoOutsOneTx    bool // one transaction spends >= 2 different outputs of one earlier transaction
+	twoOutsSiblings bool // several transactions of the block spend different outputs of one earlier transaction
+	retChangeFirst  bool // return-deposit tx whose output list starts with a plain (change) output
+	retChangeMiddle bool // ... with a plain output between two return outputs
+	retMulti        bool // ... with more than one return output
 }
 
 type sChain struct {
@@ -385,12 +391,26 @@ type sChain struct {
 	// differences already attributed to an inner pop (an outer frame's
 	// comparison would see them again)
 	attributed map[string]bool
+	// input selection overrides of the next generated transaction
+	preferTx *common.Uint256
+	forceN   int
 }
 
 func (s *sChain) take(n int, wantX int) []sUTXO {
 	// wantX: 1 only X-owned, 0 only non-X, -1 any
 	var got []sUTXO
 	idx := s.r.Perm(len(s.avail))
+	if s.preferTx != nil {
+		var first, rest []int
+		for _, i := range idx {
+			if s.avail[i].op.TxID == *s.preferTx {
+				first = append(first, i)
+			} else {
+				rest = append(rest, i)
+			}
+		}
+		idx = append(first, rest...)
+	}
 	used := map[int]bool{}
 	for _, i := range idx {
 		if len(got) == n {
@@ -412,6 +432,30 @@ func (s *sChain) take(n int, wantX int) []sUTXO {
 	}
 	s.avail = rest
 	return got
+}
+
+// txWithOutputs picks an earlier transaction that still has >= min non-X
+// outputs available and reports how many.
+func (s *sChain) txWithOutputs(min int) (common.Uint256, int) {
+	cnt := map[common.Uint256]int{}
+	var order []common.Uint256
+	for _, u := range s.avail {
+		if cnt[u.op.TxID] == 0 {
+			order = append(order, u.op.TxID)
+		}
+		cnt[u.op.TxID]++
+	}
+	var cands []common.Uint256
+	for _, id := range order {
+		if cnt[id] >= min {
+			cands = append(cands, id)
+		}
+	}
+	if len(cands) == 0 {
+		return common.Uint256{}, 0
+	}
+	id := cands[s.r.Intn(len(cands))]
+	return id, cnt[id]
 }
 
 func insOf(us []sUTXO) ([]*common2.Input, map[*common2.Input]common2.Output, common.Fixed64) {
@@ -473,7 +517,11 @@ func (s *sChain) genTx(kind string, f *sFrame) interfaces.Transaction {
 	plain := func(i int, ph common.Uint168, v common.Fixed64) *common2.Output { return defOut(ph, v) }
 	prog := []*pg.Program{{Code: []byte{0x21, 1, 2, 3, 0xac}, Parameter: []byte{1, 2, 3}}}
 	generic := func(t common2.TxType, pver byte, pl interfaces.Payload, wantX int) interfaces.Transaction {
-		us := s.take(1+r.Intn(2), wantX)
+		nIn := 1 + r.Intn(2)
+		if s.forceN > 0 {
+			nIn = s.forceN
+		}
+		us := s.take(nIn, wantX)
 		if len(us) == 0 {
 			return nil
 		}
@@ -529,19 +577,45 @@ func (s *sChain) genTx(kind string, f *sFrame) interfaces.Transaction {
 			return nil
 		}
 		ins, _, tot := insOf(us)
-		var dh common.Uint256
-		if len(s.freeDep) > 0 && r.Intn(2) == 0 {
-			j := r.Intn(len(s.freeDep))
-			dh = s.freeDep[j]
-			s.freeDep = append(s.freeDep[:j], s.freeDep[j+1:]...)
-		} else {
-			s.seq++
-			dh = hashOf(fmt.Sprintf("deposit-tx/%d/%d", s.c.Shard, s.seq))
+		newDep := func() common.Uint256 {
+			var dh common.Uint256
+			if len(s.freeDep) > 0 && r.Intn(2) == 0 {
+				j := r.Intn(len(s.freeDep))
+				dh = s.freeDep[j]
+				s.freeDep = append(s.freeDep[:j], s.freeDep[j+1:]...)
+			} else {
+				s.seq++
+				dh = hashOf(fmt.Sprintf("deposit-tx/%d/%d", s.c.Shard, s.seq))
+			}
+			f.keys.retdep = append(f.keys.retdep, dh)
+			return dh
 		}
-		f.keys.retdep = append(f.keys.retdep, dh)
+		// output list shapes: R = return output (own deposit hash), C = plain change output
+		shapes := []string{"R", "RR", "CR", "RCR", "RC", "CRR", "RRC", "CRCR"}
+		shape := shapes[r.Intn(len(shapes))]
 		pver := byte(r.Intn(2))
-		outs := []*common2.Output{{AssetID: defOut(us[0].ph, 0).AssetID, Value: tot, ProgramHash: s.stdPH[r.Intn(len(s.stdPH))],
-			Type: common2.OTReturnSideChainDepositCoin, Payload: &outputpayload.ReturnSideChainDeposit{Version: 0, GenesisBlockAddress: "XKUh4GLhFJiqAMTF6HyWQrV9pK9HcGUdfJ", DepositTransactionHash: dh}}}
+		var outs []*common2.Output
+		left := tot
+		seenR := false
+		for i, ch := range shape {
+			v := left / common.Fixed64(len(shape)-i)
+			left -= v
+			if ch == 'R' {
+				outs = append(outs, &common2.Output{AssetID: defOut(us[0].ph, 0).AssetID, Value: v, ProgramHash: s.stdPH[r.Intn(len(s.stdPH))],
+					Type: common2.OTReturnSideChainDepositCoin, Payload: &outputpayload.ReturnSideChainDeposit{Version: 0, GenesisBlockAddress: "XKUh4GLhFJiqAMTF6HyWQrV9pK9HcGUdfJ", DepositTransactionHash: newDep()}})
+				seenR = true
+			} else {
+				outs = append(outs, defOut(us[0].ph, v))
+				if !seenR {
+					f.retChangeFirst = true
+				} else if strings.Contains(shape[i:], "R") {
+					f.retChangeMiddle = true
+				}
+			}
+		}
+		if strings.Count(shape, "R") > 1 {
+			f.retMulti = true
+		}
 		return functions.CreateTransaction(common2.TxVersion09, common2.ReturnSideChainDepositCoin, pver,
 			&payload.ReturnSideChainDepositCoin{Signers: []uint8{0, 1, 2}}, []*common2.Attribute{}, ins, outs, 0, prog)
 	case "proposal":
@@ -586,7 +660,7 @@ func (s *sChain) genTx(kind string, f *sFrame) interfaces.Transaction {
 	return nil
 }
 
-var sKinds = []string{"transfer", "transfer", "withdrawV0", "withdrawV1", "withdrawV2", "withdrawV2", "returnDeposit", "proposal", "review", "review", "tracking", "nftDestroy", "record", "crossTransfer"}
+var sKinds = []string{"consolidate", "siblings", "returnDeposit", "transfer", "transfer", "withdrawV0", "withdrawV1", "withdrawV2", "withdrawV2", "returnDeposit", "proposal", "review", "review", "tracking", "nftDestroy", "record", "crossTransfer"}
 
 // buildBlock assembles a synthetic block on the current synthetic tip.
 func (s *sChain) buildBlock(kinds []string) *sFrame {
@@ -600,12 +674,66 @@ func (s *sChain) buildBlock(kinds []string) *sFrame {
 	txs := []interfaces.Transaction{cb}
 	var used []string
 	for _, k := range kinds {
+		switch k {
+		case "consolidate", "siblings":
+			// several different outputs of ONE earlier transaction are spent in this block
+			id, n := s.txWithOutputs(2)
+			if n < 2 {
+				continue
+			}
+			s.preferTx = &id
+			if k == "consolidate" {
+				s.forceN = 2 + s.r.Intn(c13min(n, 3)-1)
+				if tx := s.genTx("transfer", f); tx != nil {
+					txs = append(txs, tx)
+					used = append(used, k)
+				}
+			} else {
+				s.forceN = 1
+				for j := 0; j < c13min(n, 2+s.r.Intn(2)); j++ {
+					if tx := s.genTx("transfer", f); tx != nil {
+						txs = append(txs, tx)
+					}
+				}
+				used = append(used, k)
+			}
+			s.preferTx, s.forceN = nil, 0
+			continue
+		}
 		tx := s.genTx(k, f)
 		if tx == nil {
 			continue
 		}
 		txs = append(txs, tx)
 		used = append(used, k)
+	}
+	// which disconnect shapes does the block carry?
+	perPrev := map[common.Uint256]map[uint16]int{} // prev tx -> output index -> spending tx number
+	for ti, tx := range txs[1:] {
+		inTx := map[common.Uint256]map[uint16]bool{}
+		for _, in := range tx.Inputs() {
+			id := in.Previous.TxID
+			if perPrev[id] == nil {
+				perPrev[id] = map[uint16]int{}
+			}
+			perPrev[id][in.Previous.Index] = ti
+			if inTx[id] == nil {
+				inTx[id] = map[uint16]bool{}
+			}
+			inTx[id][in.Previous.Index] = true
+			if len(inTx[id]) >= 2 {
+				f.twoOutsOneTx = true
+			}
+		}
+	}
+	for _, m := range perPrev {
+		spenders := map[int]bool{}
+		for _, ti := range m {
+			spenders[ti] = true
+		}
+		if len(m) >= 2 && len(spenders) >= 2 {
+			f.twoOutsSiblings = true
+		}
 	}
 	blk := &types.Block{Header: common2.Header{Version: 0, Previous: s.tipB.Hash(), Timestamp: s.tipB.Timestamp + 1,
 		Bits: s.nd.Cfg.PowConfiguration.PowLimitBits, Height: h}, Transactions: txs}
@@ -758,12 +886,24 @@ func (s *sChain) pop() {
 	f := s.frames[len(s.frames)-1]
 	c.Begin("C13 store pop h=%d %s", f.blk.Height, f.label)
 	if err := st.RollbackBlock(f.blk, f.nd, nil, blockchain.CalcPastMedianTime(f.nd.Parent)); err != nil {
-		c.Violate("rollback:error", fmt.Sprintf("RollbackBlock of a block that was saved fails: %v (block: %s)", err, f.label), map[string]interface{}{"txs": f.label})
+		c13Viol(c, "rollback:error", fmt.Sprintf("RollbackBlock of a block that was saved fails: %v (block: %s)", err, f.label), map[string]interface{}{"txs": f.label})
 		// the store is in an unknown state now
 		s.frames = nil
 		return
 	}
 	c.Inc("S_pops")
+	for name, on := range map[string]bool{
+		"disconnected_blocks_spending_two_outputs_of_one_tx":      f.twoOutsOneTx || f.twoOutsSiblings,
+		"disconnected_blocks_one_tx_spending_two_outputs_of_a_tx": f.twoOutsOneTx,
+		"disconnected_blocks_two_txs_spending_outputs_of_one_tx":  f.twoOutsSiblings,
+		"disconnected_return_deposit_with_change_first":           f.retChangeFirst,
+		"disconnected_return_deposit_with_change_between_returns": f.retChangeMiddle,
+		"disconnected_return_deposit_with_several_return_outputs": f.retMulti,
+	} {
+		if on {
+			c.Inc(name)
+		}
+	}
 	s.frames = s.frames[:len(s.frames)-1]
 	s.tipN = f.nd.Parent
 	if len(s.frames) > 0 {
@@ -782,7 +922,7 @@ func (s *sChain) pop() {
 	c.Inc("S_dump_compares")
 	if postBest != f.preBest {
 		clean = false
-		c.Violate("rollback:best-state", fmt.Sprintf("best state after disconnect %s, before connect %s", postBest, f.preBest), nil)
+		c13Viol(c, "rollback:best-state", fmt.Sprintf("best state after disconnect %s, before connect %s", postBest, f.preBest), nil)
 	}
 	diffs := diffDumps(f.pre, post)
 	seen := map[string]bool{}
@@ -797,7 +937,7 @@ func (s *sChain) pop() {
 			continue
 		}
 		seen[sig] = true
-		c.Violate(sig, detail, map[string]interface{}{"block_txs": f.label, "bucket": d.Path, "key": d.Key, "kind": d.Kind, "depth": len(s.frames) + 1})
+		c13Viol(c, sig, detail, map[string]interface{}{"block_txs": f.label, "bucket": d.Path, "key": d.Key, "kind": d.Kind, "depth": len(s.frames) + 1})
 	}
 	// raw-only residue (order inside lists, empty lists/buckets, work sum): counted, not flagged
 	for _, d := range diffDumps(stripBlockStorage(f.preRaw), stripBlockStorage(raw)) {
@@ -840,7 +980,7 @@ func (s *sChain) pop() {
 			continue
 		}
 		qseen[sig] = true
-		c.Violate(sig, detail, map[string]interface{}{"block_txs": f.label, "query": name[0]})
+		c13Viol(c, sig, detail, map[string]interface{}{"block_txs": f.label, "query": name[0]})
 	}
 	// re-inclusion gate: the rolled-back withdrawal must pass the context check again
 	for i, tx := range f.wds {
@@ -849,7 +989,7 @@ func (s *sChain) pop() {
 			c.Inc("S_gate_accept_after_pop")
 		} else {
 			clean = false
-			c.Violate(fmt.Sprintf("rollback:withdrawal-not-reincludable:V%d", tx.PayloadVersion()),
+			c13Viol(c, fmt.Sprintf("rollback:withdrawal-not-reincludable:V%d", tx.PayloadVersion()),
 				fmt.Sprintf("a V%d withdrawal accepted before the connect is rejected after its block was disconnected: %s", tx.PayloadVersion(), why), nil)
 		}
 		for _, h := range wdHashes(tx) {
@@ -913,6 +1053,21 @@ func (s *sChain) classify(f *sFrame, d ddiff) (string, string) {
 
 // ---------------------------------------------------------------- run
 
+// c13Violated: this shard has already reported a violation (later set-up
+// failures are then consequences, not reasons to call the run inconclusive).
+var c13Violated bool
+
+// c13Inherited: differences the store level left behind (already reported there).
+var c13Inherited = map[string]bool{}
+
+func c13Viol(c *kit.Ctx, sig, detail string, cas interface{}) {
+	// (the content-addressed draft data finding does not damage the store once everything is unwound)
+	if sig != "rollback:proposal-draft-shared-hash-removed" {
+		c13Violated = true
+	}
+	c.Violate(sig, detail, cas)
+}
+
 func runC13(c *kit.Ctx) {
 	nd, err := node.Start(node.Options{Dir: c.WorkDir, CoinbaseMaturity: 1})
 	if err != nil {
@@ -925,10 +1080,10 @@ func runC13(c *kit.Ctx) {
 		c.Inconclusive("mining: %v", err)
 		return
 	}
-	if !c13NodeLevel(c, nd, r) {
-		return
-	}
+	// store level first: it leaves the store exactly as it found it (everything
+	// is unwound) unless a disconnect is not exact, which it then reports
 	c13StoreLevel(c, nd, r)
+	c13NodeLevel(c, nd, c.Rand("c13/node"))
 }
 
 func c13StoreLevel(c *kit.Ctx, nd *node.Node, r *rand.Rand) {
@@ -1090,281 +1245,19 @@ func c13StoreLevel(c *kit.Ctx, nd *node.Node, r *rand.Rand) {
 		dE, bestE := normalise(rawE)
 		c.Inc("S_full_unwind_compares")
 		if df := diffDumps(d0, dE); len(df) > 0 || bestE != best0 {
-			// individual pops already reported their part; this is the sum
+			// individual pops already reported their part; this is the sum.
+			// The node level must not report it once more.
 			c.Inc("S_full_unwind_differs")
+			for _, d := range df {
+				c13Inherited[d.Path+"|"+d.Key] = true
+			}
 		}
 	}
 }
 
-// ---------------------------------------------------------------- node level
-
-type nOut struct {
-	ref  node.UTXORef
-	used bool
-}
-
-func c13NodeLevel(c *kit.Ctx, nd *node.Node, r *rand.Rand) bool {
-	st := nd.Store
-	accts := []int{2, 3, 4, 5, 6, 7}
-	g := nd.GenesisUTXO()
-	var outs []node.Out
-	per := common.Fixed64(500 * 1e8)
-	nFund := 60
-	for i := 0; i < nFund; i++ {
-		outs = append(outs, node.Out{To: node.Key(accts[i%len(accts)]).ProgramHash, Value: per})
+func c13min(a, b int) int {
+	if a < b {
+		return a
 	}
-	outs = append(outs, node.Out{To: nd.Found.ProgramHash, Value: g.Value - per*common.Fixed64(nFund) - 10000})
-	fund := node.Transfer([]node.UTXORef{g}, outs, common2.TxVersion09)
-	if _, err := nd.MineTip(fund); err != nil {
-		c.Inconclusive("node level: funding block rejected: %v", err)
-		return false
-	}
-	nd.MineN(2)
-	var pool []*nOut
-	for i := 0; i < nFund; i++ {
-		pool = append(pool, &nOut{ref: node.UTXORef{TxID: fund.Hash(), Index: uint16(i), Value: per, Owner: node.Key(accts[i%len(accts)])}})
-	}
-	fee := common.Fixed64(10000)
-	mkTransfer := func(u *nOut, salt int) interfaces.Transaction {
-		a := node.Key(accts[(salt+1)%len(accts)]).ProgramHash
-		b := node.Key(accts[(salt+3)%len(accts)]).ProgramHash
-		half := (u.ref.Value - fee) / 2
-		os := []node.Out{{To: a, Value: half}, {To: b, Value: u.ref.Value - fee - half}}
-		if salt%3 == 0 {
-			os = append(os, node.Out{To: a, Value: 0}) // zero-value output
-		}
-		return node.Transfer([]node.UTXORef{u.ref}, os, common2.TxVersion09)
-	}
-	rounds := c.N(3, 14)
-	for rd := 0; rd < rounds; rd++ {
-		F := nd.TipBlock()
-		rawF, err := takeDump(st.GetFFLDB())
-		if err != nil {
-			c.Inconclusive("dump failed: %v", err)
-			return false
-		}
-		dF, bestF := normalise(rawF)
-		k := 1 + r.Intn(3)
-		var free []*nOut
-		for _, u := range pool {
-			if !u.used {
-				free = append(free, u)
-			}
-		}
-		if len(free) < 4*(k+1) {
-			break
-		}
-		r.Shuffle(len(free), func(i, j int) { free[i], free[j] = free[j], free[i] })
-		// branch A
-		type planned struct {
-			tx interfaces.Transaction
-			in *nOut
-		}
-		var aTxs [][]planned
-		fi := 0
-		touchedTx := map[common.Uint256]bool{}
-		touchedPH := map[common.Uint168]bool{}
-		note := func(tx interfaces.Transaction, in *nOut) {
-			touchedTx[tx.Hash()] = true
-			touchedTx[in.ref.TxID] = true
-			touchedPH[in.ref.Owner.ProgramHash] = true
-			for _, o := range tx.Outputs() {
-				touchedPH[o.ProgramHash] = true
-			}
-		}
-		okA := true
-		for i := 0; i < k; i++ {
-			var ps []planned
-			var txs []interfaces.Transaction
-			for j := 0; j < 1+r.Intn(3); j++ {
-				u := free[fi]
-				fi++
-				tx := mkTransfer(u, rd*100+i*10+j)
-				ps = append(ps, planned{tx, u})
-				txs = append(txs, tx)
-				note(tx, u)
-			}
-			if _, err := nd.MineTip(txs...); err != nil {
-				c.Note("node level: branch A block rejected: %v", err)
-				okA = false
-				break
-			}
-			aTxs = append(aTxs, ps)
-		}
-		if !okA {
-			c.Inconclusive("node level: honest branch A rejected")
-			return false
-		}
-		tipA := nd.Tip()
-		// branch B from F: k+1 blocks; re-includes some A transactions, double-spends some A inputs differently, adds new ones
-		parent := F
-		var bBlocks []*types.Block
-		var bPlan []planned
-		for i := 0; i < k+1; i++ {
-			var txs []interfaces.Transaction
-			var fees common.Fixed64
-			if i < len(aTxs) {
-				for j, p := range aTxs[i] {
-					switch (rd + i + j) % 3 {
-					case 0: // same transaction on the other branch
-						txs = append(txs, p.tx)
-						bPlan = append(bPlan, p)
-					case 1: // conflicting spend of the same output
-						tx := mkTransfer(p.in, rd*100+i*10+j+50)
-						note(tx, p.in)
-						txs = append(txs, tx)
-						bPlan = append(bPlan, planned{tx, p.in})
-					}
-					// case 2: the output stays unspent on B
-				}
-			}
-			if fi < len(free) {
-				u := free[fi]
-				fi++
-				tx := mkTransfer(u, rd*100+i*10+77)
-				note(tx, u)
-				txs = append(txs, tx)
-				bPlan = append(bPlan, planned{tx, u})
-			}
-			fees = fee * common.Fixed64(len(txs))
-			b, err := nd.Assemble(node.BlockSpec{Parent: parent, Txs: txs, Fees: fees, Nonce: 0xB000000 + uint64(rd*16+i)})
-			if err != nil {
-				c.Inconclusive("node level: assemble: %v", err)
-				return false
-			}
-			c.Begin("C13 node round %d process B%d", rd, i)
-			if _, _, err := nd.Process(b); err != nil {
-				c.Note("node level: branch B block %d rejected: %v", i, err)
-				c.Inconclusive("node level: honest branch B rejected")
-				return false
-			}
-			nd.PostBlock(b)
-			bBlocks = append(bBlocks, b)
-			parent = b
-		}
-		if nd.Tip() != bBlocks[k].Hash() || nd.Tip() == tipA {
-			c.Inconclusive("node level: no reorganisation to the heavier branch happened")
-			return false
-		}
-		c.Inc("N_reorgs")
-		c.Count("N_blocks_disconnected_by_node", int64(k))
-		c.Count("N_blocks_connected_in_reorg", int64(k+1))
-		c.Case(fmt.Sprintf("N:%d:%d:%s", rd, k, nd.Tip().String()[:12]), true)
-		// pool bookkeeping follows branch B
-		for _, p := range bPlan {
-			p.in.used = true
-			for i, o := range p.tx.Outputs() {
-				if o.Value == 0 {
-					continue
-				}
-				var owner = node.Key(0)
-				for _, a := range accts {
-					if node.Key(a).ProgramHash == o.ProgramHash {
-						owner = node.Key(a)
-					}
-				}
-				pool = append(pool, &nOut{ref: node.UTXORef{TxID: p.tx.Hash(), Index: uint16(i), Value: o.Value, Owner: owner}})
-			}
-		}
-		// (1) queries against the replay model of the active chain
-		l := nd.Replay()
-		ff := st.GetFFLDB()
-		c.Inc("N_model_query_compares")
-		for id := range touchedTx {
-			mh, on := l.Txs[id]
-			tx, h, err := ff.GetTransaction(id)
-			found := err == nil && tx != nil
-			if found != on || (on && h != mh) {
-				c.Violate("reorg:GetTransaction-disagrees-with-active-chain", fmt.Sprintf("tx %s: on active chain=%v (height %d), index says found=%v height %d", id.String()[:16], on, mh, found, h), nil)
-			}
-			var want []uint16
-			for ok := range l.Unspent {
-				if ok.TxID == id {
-					want = append(want, ok.Index)
-				}
-			}
-			got, _ := ff.GetUnspent(id)
-			if fmt.Sprint(sortedU16(want)) != fmt.Sprint(sortedU16(got)) {
-				c.Violate("reorg:GetUnspent-disagrees-with-active-chain", fmt.Sprintf("tx %s: model unspent %v, index %v", id.String()[:16], sortedU16(want), sortedU16(got)), nil)
-			}
-			c.Inc("N_tx_queries")
-		}
-		for ph := range touchedPH {
-			ph := ph
-			var want, got []string
-			for ok, o := range l.Unspent {
-				if o.Owner == ph && o.Value != 0 {
-					want = append(want, fmt.Sprintf("%s:%d:%d", ok.TxID.String()[:16], ok.Index, int64(o.Value)))
-				}
-			}
-			us, _ := ff.GetUTXO(&ph)
-			for _, u := range us {
-				got = append(got, fmt.Sprintf("%s:%d:%d", u.TxID.String()[:16], u.Index, int64(u.Value)))
-			}
-			sort.Strings(want)
-			sort.Strings(got)
-			if strings.Join(want, ",") != strings.Join(got, ",") {
-				c.Violate("reorg:GetUTXO-disagrees-with-active-chain", fmt.Sprintf("address %s: model has %d utxos, index %d", ph.String()[:12], len(want), len(got)), nil)
-			}
-			c.Inc("N_utxo_queries")
-		}
-		// (2) unwind branch B at store level down to the fork point F
-		rawB, _ := takeDump(st.GetFFLDB())
-		dB, bestB := normalise(rawB)
-		bn := nd.Chain.BestChain
-		var nodes []*blockchain.BlockNode
-		for i := 0; i <= k; i++ {
-			nodes = append([]*blockchain.BlockNode{bn}, nodes...)
-			bn = bn.Parent
-		}
-		failed := false
-		for i := k; i >= 0; i-- {
-			if err := st.RollbackBlock(bBlocks[i], nodes[i], nil, blockchain.CalcPastMedianTime(nodes[i].Parent)); err != nil {
-				c.Violate("rollback:error", fmt.Sprintf("node level: RollbackBlock of connected block failed: %v", err), nil)
-				failed = true
-				break
-			}
-		}
-		if failed {
-			return false
-		}
-		rawU, _ := takeDump(st.GetFFLDB())
-		dU, bestU := normalise(rawU)
-		c.Inc("N_forkpoint_dump_compares")
-		if bestU != bestF {
-			c.Violate("rollback:best-state", fmt.Sprintf("node level: best state at fork point %s, after A/B connect+disconnect %s", bestF, bestU), nil)
-		}
-		seen := map[string]bool{}
-		for _, d := range diffDumps(dF, dU) {
-			sig := "reorg:forkpoint-dump-differs:" + bucketClass(d.Path) + ":" + d.Kind
-			if !seen[sig] {
-				seen[sig] = true
-				c.Violate(sig, fmt.Sprintf("fork point dump recorded before branches A (%d blocks, connected then disconnected by the node's reorganisation) and B (%d blocks, connected by the node, disconnected via ChainStore.RollbackBlock) differs: bucket %s key %s %s", k, k+1, d.Path, d.Key, d.Kind), nil)
-			}
-		}
-		// redo
-		for i := 0; i <= k; i++ {
-			if err := st.SaveBlock(bBlocks[i], nodes[i], nil, blockchain.CalcPastMedianTime(nodes[i].Parent)); err != nil {
-				c.Inconclusive("node level: re-saving branch B failed: %v", err)
-				return false
-			}
-		}
-		rawR, _ := takeDump(st.GetFFLDB())
-		dR, bestR := normalise(rawR)
-		c.Inc("N_redo_dump_compares")
-		if bestR != bestB {
-			c.Violate("reorg:redo-best-state", fmt.Sprintf("best state %s after redo, %s before", bestR, bestB), nil)
-		}
-		for _, d := range diffDumps(dB, dR) {
-			sig := "reorg:redo-dump-differs:" + bucketClass(d.Path) + ":" + d.Kind
-			if !seen[sig] {
-				seen[sig] = true
-				c.Violate(sig, fmt.Sprintf("disconnecting and reconnecting branch B does not reproduce the index state: bucket %s key %s %s", d.Path, d.Key, d.Kind), nil)
-			}
-		}
-		if c.Shard == 0 && rd == 0 {
-			c.Sample(map[string]interface{}{"level": "node", "fork_height": F.Height, "branch_A_blocks": k, "branch_B_blocks": k + 1, "tip_after": nd.Tip().String(), "touched_txs": len(touchedTx)})
-		}
-	}
-	return true
+	return b
 }
